@@ -229,6 +229,13 @@ func (c *Config) handleSvcEndpointUpdate(svcName string, added, removed []*servi
 		validAdded = append(validAdded, endpoint)
 	}
 
+	// The endpoints are known from now on, even if none is left (e.g. the
+	// update only removed endpoints which were never added). Otherwise the
+	// next update would be taken for the first one again.
+	if sw.Endpoints == nil {
+		sw.Endpoints = make([]*service.Endpoint, 0)
+	}
+
 	if sw.Config == nil {
 		return
 	}
